@@ -408,6 +408,12 @@ def collinear_start_stream(ctx, n, prefix="C17"):
         flat = [(o[0], o[1]), (o[0] + 1, o[1]), (o[0] + a, o[1]), (o[0] + a, o[1] + b), (o[0], o[1] + b)]      # (o+1, o) lies on the first side
         lift = lambda q: [float(q[0]), float(q[1]), float(h + t1 * q[0] + t2 * q[1]), 1.0]
         verts = [lift(q) for q in flat]
+        if k % 2 == 1:
+            # the same figure after a generic rotation about a skew axis: the first three vertices are collinear up to rounding only
+            import geometer as _g
+            R = np.asarray(_g.rotation(0.7 + 0.1 * (k % 5), axis=_g.Point(1.0, 2.0, 2.0)).array, dtype=float)
+            verts = [(R @ np.array(v)).tolist() for v in verts]
+            lift = (lambda base: (lambda q: (R @ np.array(base(q))).tolist()))(lift)
         r = rng.randrange(1, 5)
         rolled = verts[r:] + verts[:r]
         centre = lift((o[0] + a / 2, o[1] + b / 2))
@@ -424,7 +430,7 @@ def collinear_start_stream(ctx, n, prefix="C17"):
                 [bool(P.contains(g.Point(np.array(outside)))), bool(Q.contains(g.Point(np.array(outside))))], bool(P == Q)
         res = call_impl(run)
         exp_area = a * b * math.sqrt(1 + t1 * t1 + t2 * t2)
-        ok = res[0] == "ok" and all(abs(x - exp_area) <= 1e-9 * exp_area for x in res[1][0]) and res[1][1] == [True, True] and res[1][2] == [False, False] and res[1][3]
+        ok = res[0] == "ok" and all(abs(x - exp_area) <= 1e-8 * exp_area for x in res[1][0]) and res[1][1] == [True, True] and res[1][2] == [False, False] and res[1][3]
         if not ok:
             ctx.disagree(f"{prefix}:polygon3:collinear-start", desc, ([exp_area, exp_area], [True, True], [False, False], True), res[1:3] if res[0] != "ok" else res[1], replay=[desc])
 
